@@ -5,7 +5,9 @@ ID = 'C02'
 LEVEL = 'exploration'
 BUDGET = {'quick': 1200, 'thorough': 5000}
 RULE = ('Hypothesis-generated World histories (create/add/replace/remove/delete/delete_now/process/clear) '
-        'interleaved with dispatch_enabled toggles and probe dispatches, over recorder component classes of all '
+        'interleaved with dispatch_enabled toggles and probe dispatches, including operations issued re-entrantly by '
+        'armed lifecycle callbacks (a component removing itself in its on_add, deleting its own or another entity, '
+        'disabling dispatching in the middle of create_entity), over recorder component classes of all '
         'declaration shapes (handler or not, on_add and/or on_remove, renamed methods, extra probe listener, '
         'inherited mappings). Oracle: a reference model yields for every operation the multiset of owed '
         'callbacks (receiver identity, entity, world); enabled: the log segment of the operation must equal '
